@@ -1134,7 +1134,7 @@ def run(ctx):
         dims = [i for i, d in enumerate(sp["dims"]) if d["cond"] is not None]
         dim = dims[-1] if k % 2 == 0 else rng.choice(dims)
         seed = rng.randrange(2 ** 31)
-        ps_, pf_ = rng.choice([([0.1, 0.9], 1), ([0.5], 0.5), ([2e-3, 0.7], 1.0), ([0.25, 0.5, 0.75], 2)])
+        ps_, pf_ = rng.choice([([0.1, 0.9], 1), ([0.5], 0.5), ([2e-3, 0.7], 1.0), ([0.25, 0.5, 0.75], 2)]) if k else ([0.3, 0.9995], 1)
         nicdf += 2
         report(o_icdf_seed(sp, dim, seed, ps_, pf_), {"oracle": "icdf_seed", "spec": sp, "dim": dim, "seed": seed, "ps": list(ps_), "pf": pf_})
         report(o_icdf_nd(sp, dim, seed), {"oracle": "icdf_nd", "spec": sp, "dim": dim, "seed": seed})
